@@ -86,6 +86,7 @@ type checkRun struct {
 	g        *Global
 	results  []*FuncResult
 	lemmaResults []*FuncResult
+	trustedFns   []string
 	obls     []*Obligation
 	covers   []*Obligation
 	oblVC    map[*Obligation]*VC
@@ -146,6 +147,11 @@ func cmdCheck(args []string) int {
 		fn := g.fnByID[id]
 		if fn == nil || fn.Blocks == nil {
 			cr.missing = append(cr.missing, shortID(id))
+			continue
+		}
+		if fc.Trusted {
+			// contract assumed, body not verified: reported under trusted_base by its users
+			cr.trustedFns = append(cr.trustedFns, shortID(id)+": "+fc.TrustWhy)
 			continue
 		}
 		res := verifyFunc(g, fn, fc)
